@@ -539,7 +539,9 @@ class World(EventDispatcher):
         """
         self._clear_dead_entities()
 
-        for processor in self._sorted_processors:
+        # Iterate on a copy: a processor may add other processors during
+        # its execution, which would shift the ones being iterated
+        for processor in tuple(self._sorted_processors):
             processor.process(dt)
 
     def clear(self):
